@@ -180,6 +180,8 @@ class Machine:
 
     # ---- calling
     def call(self, name, args):
+        ov = getattr(self, 'overrides', None)
+        if ov and name in ov: return ov[name](self, args)
         b = self.bodies[name]
         mp.ensure_parsed(b)
         fr = Frame(b)
